@@ -430,7 +430,7 @@ impl FileDigest {
         Ok(match algorithm {
             DigestAlgorithm::Md5 if digest.digest.len() == 32 => digest,
             DigestAlgorithm::Sha2_256 if digest.digest.len() == 64 => digest,
-            DigestAlgorithm::Sha2_224 if digest.digest.len() == 60 => digest,
+            DigestAlgorithm::Sha2_224 if digest.digest.len() == 56 => digest,
             DigestAlgorithm::Sha2_384 if digest.digest.len() == 96 => digest,
             DigestAlgorithm::Sha2_512 if digest.digest.len() == 128 => digest,
             // @todo disambiguate mismatch of length from unsupported algorithm
